@@ -38,14 +38,17 @@ pub struct JsonStyle {
     pub leading: &'static str,
     /// numbers in other legal spellings of the same value (exponents, trailing zeros)
     pub spell: bool,
+    /// chance weights are relative: small integer weights may be written at another scale
+    /// (subnormal, tiny or huge, e.g. `3e-310`)
+    pub weight_suffix: &'static str,
 }
 
 impl JsonStyle {
     pub fn random(r: &mut Rng) -> Self {
-        JsonStyle { shuffle: r.coin(0.5), pretty: r.coin(0.3), null_infoset: r.coin(0.3), leading: *r.pick(&["", "", "", "\n", "  ", "\t", "\r\n", "\n\n  "]), spell: r.coin(0.3) }
+        JsonStyle { shuffle: r.coin(0.5), pretty: r.coin(0.3), null_infoset: r.coin(0.3), leading: *r.pick(&["", "", "", "\n", "  ", "\t", "\r\n", "\n\n  "]), spell: r.coin(0.3), weight_suffix: *r.pick(&["", "", "", "", "", "", "e-310", "e-310", "e-300", "e300"]) }
     }
     pub fn plain() -> Self {
-        JsonStyle { shuffle: false, pretty: false, null_infoset: false, leading: "", spell: false }
+        JsonStyle { shuffle: false, pretty: false, null_infoset: false, leading: "", spell: false, weight_suffix: "" }
     }
 }
 
@@ -123,7 +126,9 @@ fn json_node(n: &MNode, r: &mut Rng, st: &JsonStyle, d: usize, s: &mut String) {
                     s.push_str(", ");
                 }
                 nl(st, d + 1, s);
-                let _ = write!(s, "\"{}\": {{\"prob\": {}, \"state\": ", esc(name), num_s(*w, st));
+                let small_ints = outs.iter().all(|(_, w, _)| *w >= 1.0 && *w <= 999.0 && w.fract() == 0.0);
+                let wtxt = if small_ints && !st.weight_suffix.is_empty() { format!("{}{}", *w as u64, st.weight_suffix) } else { num_s(*w, st) };
+                let _ = write!(s, "\"{}\": {{\"prob\": {}, \"state\": ", esc(name), wtxt);
                 json_node(c, r, st, d + 1, s);
                 s.push('}');
             }
@@ -182,6 +187,8 @@ pub struct EfgStyle {
     /// numbers in other legal spellings of the same value ("+3", "3.", ".5", "1500e-3",
     /// "3/2", "1.5E+0", "0001.500")
     pub spell: bool,
+    /// with `spell`: some numbers are written with more than 308 digits
+    pub long_digits: bool,
 }
 
 impl EfgStyle {
@@ -215,6 +222,7 @@ impl EfgStyle {
             one_chance_name: r.coin(0.25),
             chance_base: *r.pick(&[0u64, 0, 1, 1, 7]),
             spell: r.coin(0.3),
+            long_digits: r.coin(0.3),
         }
     }
     pub fn plain() -> Self {
@@ -234,6 +242,7 @@ impl EfgStyle {
             one_chance_name: false,
             chance_base: 1,
             spell: false,
+            long_digits: false,
         }
     }
 }
@@ -291,8 +300,25 @@ fn spell_efg(m: i128) -> String {
         4 => format!("{}E+0", dec(m)),
         5 => format!("{sign}000{}.{:03}", a / 1000, a % 1000),
         6 => format!("{}/{}", dec(m * 3), "3.0"),
+        // more than 308 digits, numerator and denominator without a common factor: the value is
+        // the same double (x + 1e-330 rounds to x)
+        7 if a % 1000 != 0 => format!("{sign}{}.{:03}{}1", a / 1000, a % 1000, "0".repeat(326)),
         _ => dec(m),
     }
+}
+
+/// two finite decimals p and q = 1 - p, respelled with 330 digits as p + 1e-330 and q - 1e-330
+/// (still exactly one in total, still the same doubles)
+fn long_pair(p: &str, q: &str) -> Option<(String, String)> {
+    let (pf, qf) = (p.strip_prefix("0.")?, q.strip_prefix("0.")?);
+    if !pf.bytes().all(|b| b.is_ascii_digit()) || !qf.bytes().all(|b| b.is_ascii_digit()) {
+        return None;
+    }
+    let qf = qf.trim_end_matches('0');
+    let last = qf.bytes().last()?;
+    let p2 = format!("0.{}{}1", pf, "0".repeat(329 - pf.len()));
+    let q2 = format!("0.{}{}{}", &qf[..qf.len() - 1], (last - 1) as char, "9".repeat(330 - qf.len()));
+    Some((p2, q2))
 }
 
 /// another spelling of a probability string written by `prob_strings`
@@ -367,7 +393,8 @@ impl EfgW<'_> {
     fn payoffs(&self, a: i128, b: i128) -> String {
         if self.st.spell {
             let sep = if self.st.commas { ", " } else { " " };
-            return format!("{{ {}{sep}{} }}", spell_efg(a), spell_efg(b));
+            let sp = |m: i128| if !self.st.long_digits && m.unsigned_abs() % 8 == 7 { dec(m) } else { spell_efg(m) };
+            return format!("{{ {}{sep}{} }}", sp(a), sp(b));
         }
         if self.st.commas {
             format!("{{ {}, {} }}", dec(a), dec(b))
@@ -435,7 +462,14 @@ impl EfgW<'_> {
                 // chance actions may all carry the same (empty) name — names are labels; only done
                 // where the probabilities are pairwise distinct, so that the node is unambiguous
                 let distinct = (0..probs.len()).all(|a| (0..a).all(|b| probs[a] != probs[b]));
-                let probs: Vec<String> = if self.st.spell { probs.iter().enumerate().map(|(k, p)| spell_prob(p, k + weights.len())).collect() } else { probs };
+                let probs: Vec<String> = match (self.st.spell, self.st.decimal_probs && probs.len() == 2, self.st.long_digits) {
+                    (true, true, true) => match long_pair(&probs[0], &probs[1]) {
+                        Some((a, b)) => vec![a, b],
+                        None => probs,
+                    },
+                    (true, _, _) => probs.iter().enumerate().map(|(k, p)| spell_prob(p, k + weights.len())).collect(),
+                    _ => probs,
+                };
                 let anon_outs = self.st.anonymous_chance_actions && distinct;
                 let list: Vec<String> = order.iter().map(|i| format!("\"{}\" {}", if anon_outs { String::new() } else { esc(&outs[*i].0) }, probs[*i])).collect();
                 let (oc, add) = self.interior();
